@@ -20,6 +20,12 @@ CHECKS.update({
  "C11": ("condense_ballots, ==, +, to_*_dict, derived fields and Ballot conversion executed with symbolic weights/scores over colliding contents in every order; z3 decides per-content sums and whether == agrees with content-map equality in both directions. Immutability, duplicate candidates, float conversion samples and eq/hash consistency have no symbolic input and are evaluated directly (labelled so).", "§4 C11"),
  "C12": ("remove_cand (profile/tuple/single ballot x condense x leave_zero x every removal subset incl. an absent name), add_missing_cands, expand_tied_ballot, resolve_profile_ties and cleaning.* executed with symbolic weights; per resulting content z3 compares the summed weight with the spec image; expansion checked against all linear extensions and first-place/Borda/pairwise totals.", "§4 C12"),
 })
+CHECKS.update({
+ "C05": ("Constructors of Rating/Approval/Limited/Cumulative/BlocPlurality/GeneralRating with every score, weight, L and k symbolic: on accepted paths z3 proves every ballot satisfies the limits, on TypeError paths that some ballot violates them (both directions, so the == L / == k boundaries and 'only the second ballot offends' are decided); totals and winners against definitions.", "§4 C05"),
+ "C06": ("PairwiseComparisonGraph/DominatingSets/CondoBorda on proxies: each margin vs its definition term, edge directions and tie edges, tiers equal to the unique finest dominating partition derived from the decided margin signs (minimality included), Condorcet winner queries, CondoBorda's choice in the straddling tier by definition Borda scores.", "§4 C06"),
+ "C09": ("Finished elections of every rule on proxies; per round: replayed profile's candidates and re-scoring by definition vs recorded state, cumulative queries vs per-round records, negative/out-of-range indices; purity as an inductive step (structural snapshot of the object before/after each query); symbolic integer round index on concrete finished elections.", "§4 C09"),
+ "C10": ("All non-random rules with random stubs forking over every outcome; every recorded tiebreak is checked by z3 to be genuine (equal deciding tallies), decisive, a strict order obeyed by the round, and score-ordered for borda/first_place with random fallback only among still-tied candidates; draws not covered by a record are reported.", "§4 C10"),
+})
 NOT_APPLICABLE = {}
 def main():
     props = [json.loads(l)["id"] for l in open(os.path.join(ROOT, "properties.jsonl"))]
